@@ -37,8 +37,8 @@ ASSUMPTIONS = [
     "physical constants (pi, kerg, amu, echarge, hbar, meu) are read from the rendered naunet_constants.cpp; model constants (habing, crphot, zism) are my own copy",
     "grain group 0 only",
 ]
-ICE = ["H", "H2", "CO", "H2O", "CH4", "NH3", "O", "OH", "N2", "C", "HCO", "H2CO"]
-MASS = {"H": 1.0, "C": 12.0, "N": 14.0, "O": 16.0}
+ICE = ["H", "H2", "CO", "H2O", "CH4", "NH3", "O", "OH", "N2", "C", "HCO", "H2CO", "D", "HD"]  # D, HD: mass number 2 and 3 without being H2
+MASS = {"H": 1.0, "C": 12.0, "N": 14.0, "O": 16.0, "D": 2.0}
 ZISM = 1.3e-17
 
 
@@ -70,8 +70,9 @@ def _case(draw):
     lg = lambda lo, hi: st.floats(min_value=math.log10(lo), max_value=math.log10(hi)).map(lambda e: 10.0 ** e)
     case = {"model": model, "ices": ices, "user_eb": {}, "user_yield": {}, "reactions": [], "grains": False}
     for x in ices:
-        if draw(st.integers(0, 3)) == 0:
-            case["user_eb"][x] = draw(st.sampled_from([555.0, 1234.5, 2000.0, 7777.0]))
+        # (the bundled table has no binding energy for the deuterated ices: the user supplies one, as naunet asks)
+        if draw(st.integers(0, 3)) == 0 or x in ("D", "HD"):
+            case["user_eb"][x] = draw(st.sampled_from([555.0, 1234.5, 2000.0, 7777.0] if x not in ("D", "HD") else [621.0, 458.0]))
         if draw(st.integers(0, 3)) == 0:
             case["user_yield"][x] = draw(st.sampled_from([1.0e-3, 2.7e-3, 5.0e-2]))
     if model.startswith("hh93"):
